@@ -41,6 +41,16 @@ FIRST = {
     "C02-5": "exit 2 at first; a zero-point rounded by `+0.5` and a truncating cast is a violation of C02.R5 while the range excludes zero",
     "C07-5": "C05.R4 / C06 at once; **C07 missed**: the matmul guards trust `axis`; operand-invariant rule C07.R7 added (re-emits the axis/scale agreement obligations of every re-laying handler)",
     "C07-6": "exit 2 at first (the handler called the library kernel, unknown to the interpreter of handlers); the kernel is now bound there too",
+    "C14-5": "C03 and C14 **both missed**: each side's `group(...)` call was right where it was made; grouping-condition rule added (grouped iff a group size is given, on every path of optimizer wrapper and quantizer; C03.R5 / C14.R1)",
+    "C15-5": "**missed at first**; re-wrapping rule C15.R9 added (ops whose QBits handler rebuilds `t.__class__` must be ops under which the AWQ payload stays packed)",
+    "C15-6": "exit 2 at first; a division by the stored scale in the AWQ dequantizer is a violation (C15.R5, C16.R4)",
+    "C11-5": "**missed at first**; C11.R7 added (no raw payload in a backward contraction)",
+    "C11-6": "**missed at first**; C11.R6 added (no gradient-mode context / detach on the dynamic weight path)",
+    "C09-5": "C04.R3 at once; **C09 missed**; the packer rules are now re-checked under C09.R7 (rule composition)",
+    "C09-6": "C05.R5 / C06.R8 at once; **C09 missed**; the 8-bit lifecycle handler rules are re-checked under C09.R7",
+    "C16-5": "C02.R1 at once; **C16 missed**; the C01/C02 pipeline rules are re-checked under C16.R7 (the property refers to their bounds)",
+    "C16-6": "C01.R1 at once; **C16 missed**; as C16-5",
+    "C10-6": "C08.R7 / C09 / C11 / C13 at once; **C10 missed**; weight-source rule re-checked under C10.R10",
     "C06-4": "exit 2 at first (two return paths in `__tensor_unflatten__`); the reader is now analysed per path, codec verdicts count for C06.R5",
 }
 
